@@ -18,6 +18,7 @@ use crate::error::Result;
 /// Network name compliant with the [`crate::IotaDID`] method specification.
 #[derive(Clone, Hash, PartialEq, Eq, PartialOrd, Ord, Deserialize, Serialize)]
 #[repr(transparent)]
+#[serde(try_from = "String")]
 pub struct NetworkName(Cow<'static, str>);
 
 impl NetworkName {
